@@ -221,7 +221,8 @@ def _dump(ctx: Ctx, item):
     db = canboat.db()
     keys = traffic.SINGLE_KEYS + traffic.FAST_KEYS
     pgns = sorted({db.by_key[k].pgn for k in keys})
-    ids = sorted({db.by_key[k].id for k in keys})
+    ids = sorted({db.by_key[k].id for k in keys}) + traffic.twin_ids()
+    pgns = sorted(set(pgns) | set(traffic.TWIN_PGNS))
     tmpdir = tempfile.mkdtemp(prefix="vfdump")
     try:
         entry = st.one_of(st.sampled_from(pgns), st.sampled_from(ids), st.sampled_from([60928, "isoAddressClaim", 99999, "noSuchId"]))
@@ -238,7 +239,7 @@ def _dump(ctx: Ctx, item):
             if n_exp and n_exp < n_ret:
                 ctx.klass("dump_partial_selection")
             return res
-        ctx.hyp(one, st.lists(entry, min_size=0, max_size=4), traffic.history(min_msgs=5, max_msgs=12),
+        ctx.hyp(one, st.lists(entry, min_size=0, max_size=4), traffic.history(min_msgs=5, max_msgs=12, twins=True),
                 st.one_of(st.just([]), st.lists(st.one_of(st.sampled_from(pgns), st.sampled_from(ids)), min_size=1, max_size=2)),
                 max_examples=n, name="dump")
     finally:
